@@ -94,7 +94,7 @@ func commitSite(s string) bool {
 
 // txProgram draws a transaction-heavy program.
 func txProgram(t *rapid.T, maxSteps int) drive.Program {
-	p := drive.Program{Cfg: gen.Config(t), Keys: gen.Keys(t, 6, 40)}
+	p := drive.Program{Cfg: gen.Config(t), Keys: gen.KeysWide(t, 6, 40)}
 	// A transaction buffers one operation per key, so the number of records in a
 	// commit is bounded by the pool size: a quarter of the cases use a pool of
 	// 150-400 keys so that commits of hundreds of records (several log buffers)
@@ -964,7 +964,7 @@ func runBuf(c *BufCase) (*drive.Failure, []string, bool) {
 }
 
 func genBuf(t *rapid.T) BufCase {
-	c := BufCase{Cfg: gen.Config(t), Keys: gen.Keys(t, 3, 8), Reopen: rapid.Bool().Draw(t, "reopen")}
+	c := BufCase{Cfg: gen.Config(t), Keys: gen.KeysWide(t, 3, 8), Reopen: rapid.Bool().Draw(t, "reopen")}
 	ntx := rapid.IntRange(1, 6).Draw(t, "ntx")
 	tag := uint32(1)
 	for i := 0; i < ntx; i++ {
